@@ -51,7 +51,7 @@ func buildSlots() []slot {
 	valueKeys := map[string][]string{
 		"accounts":     {"address", "metadata[k]", "balance", "balance[USD]"},
 		"transactions": {"account", "source", "destination", "reference", "timestamp", "metadata[k]"},
-		"logs":         {"date"},
+		"logs":         {"date", "id"},
 		"balances":     {"address", "metadata[k]"},
 	}
 	bracketKeys := map[string][]string{
@@ -65,6 +65,12 @@ func buildSlots() []slot {
 				key, op := key, op
 				out = append(out, slot{ep, key + "-value-" + op, func(v string) query.Builder { return opBuilder(op, key, v) }})
 			}
+			// the client string inside a JSON array / object given as the value (a body can carry any JSON there)
+			key := key
+			out = append(out,
+				slot{ep, key + "-value-in-list", func(v string) query.Builder { return opBuilder("$match", key, []any{v}) }},
+				slot{ep, key + "-value-in-mixed-list", func(v string) query.Builder { return opBuilder("$match", key, []any{float64(3), v}) }},
+				slot{ep, key + "-value-in-object", func(v string) query.Builder { return opBuilder("$match", key, map[string]any{"x": v}) }})
 		}
 		for _, key := range bracketKeys[ep] {
 			for _, op := range ops {
